@@ -42,6 +42,9 @@ type sentenceResult struct {
 	Log   []attempt
 	// LogTruncated: the attempt log reached its cap; the furthest failure can no longer be computed from it
 	LogTruncated bool
+	// CtxErrWentBack: online monotonicity monitor - the context's furthest error position decreased during the parse
+	CtxErrWentBack string
+	ctxErrPos      int
 	RootEnds     map[int]bool // ends of the alternatives the root returned at offset 0
 	Node         parsley.Node
 	Value        interface{}
@@ -125,6 +128,13 @@ func runSentence(c GCase, o sentenceOpts) *sentenceResult {
 		return parser.Func(func(ctx *parsley.Context, lrc data.IntMap, pos parsley.Pos) (parsley.Node, data.IntSet, parsley.Error) {
 			gd.Tick(ctx)
 			n, cp, err := p.Parse(ctx, lrc, pos)
+			// the furthest recorded error never moves backwards (checked at every probe event)
+			if ce := ctx.Error(); ce != nil {
+				if int(ce.Pos()) < res.ctxErrPos && res.CtxErrWentBack == "" {
+					res.CtxErrWentBack = fmt.Sprintf("context error moved from offset %d back to %d (%q) after %s at offset %d", res.ctxErrPos-env.Base, int(ce.Pos())-env.Base, ce.Error(), what, int(pos)-env.Base)
+				}
+				res.ctxErrPos = int(ce.Pos())
+			}
 			if len(res.Log) < 20000 {
 				res.Log = append(res.Log, attempt{int(pos) - env.Base, what, n != nil, term, n == nil && err != nil})
 			} else {
